@@ -42,7 +42,10 @@ LEVEL_TEXT = ("Lean, for every input: == and != never let ConversionNotFound esc
               "checks per run on the regenerated tables): the search returns for every pair of interned units of one dimension after "
               "any unit operations (findPath_totalN, shipped_path_search_never_raises) and convert between simple units returns or "
               "raises ConversionNotFound only (convert_simple_totalN, shipped_simple_only_not_found; inhabited by 60 mile/hour -> "
-              "meter/second). "
+              "meter/second); and CONNECTED => CONVERTS: the search is complete on fundamental dimensions (flatPath_complete), so units "
+              "of one fundamental dimension that are linked by declared edges - any prefixes, also inside simple compound units - "
+              "convert: convert returns, no exception of any kind (convert_flat_connected, convert_simple_connected; on the "
+              "regenerated graph the 90 fundamental units are mutually reachable: shipped_fundamental_units_interconvert). "
               "That no AssertionError escapes the factor-matching PLANNER is false for the pinned code (known findings, by structural class); outside those classes the "
               "claim rests on the kernel-evaluated family - identical outcomes with assertions on and off (family_dashO_same) - on "
               "differential execution of the model in both modes against python and python -O, and on the oracle.")
@@ -63,8 +66,11 @@ THEOREMS = [
     "Measured.Obligations.NearShipped.shipped_path_search_never_raises",
     "Measured.Obligations.NearShipped.shipped_simple_only_not_found",
     "Measured.Obligations.NearShipped.shipped_simple_total_inhabited",
+    "Measured.convert_flat_connected", "Measured.convert_simple_connected",
+    "Measured.Obligations.NearShipped.shipped_fundamental_units_interconvert",
+    "Measured.Obligations.NearShipped.shipped_simple_units_interconvert",
 ]
-LEAN_TARGETS = ["Props.C07", "Obligations.C07", "Obligations.C07Near"]
+LEAN_TARGETS = ["Props.C07", "Obligations.C07", "Obligations.C07Near", "Obligations.C09Flat"]
 QUICK = {"chunks": 3, "ops": 1200}
 THOROUGH = {"chunks": 8, "ops": 8000}
 RTOL = 1e-11
